@@ -120,10 +120,17 @@ pub fn run(tier: &str) -> i32 {
     let rep = Report::new("C18", tier, "exploration");
     rep.rule("start positions P in {0,1,10,126,127,128,4096,16384,70000} x stream {empty (zero-extended to P), pre-filled with a position-dependent pattern of P bytes, pre-filled with P+100000 bytes} x archives {0 tiles, 3 tiles (4 compressions), leaf spill (none/gzip/zstd)} x {sync,async} writer; oracle: bytes [0,P) untouched, bytes [P,P+L) identical to the archive written at P=0, final position P+L, image[P..] opens to the logical archive; non-trivial = cases with P>0");
     let subs = subjects();
+    let mut positions: Vec<u64> = POSITIONS.to_vec();
+    if rep.thorough() {
+        positions.extend(0..=300);
+        positions.extend((9..=20).flat_map(|k| [(1u64 << k) - 1, 1 << k, (1 << k) + 1]));
+        positions.sort_unstable();
+        positions.dedup();
+    }
     let mut jobs = Vec::new();
     for (si, _) in subs.iter().enumerate() {
         for api in APIS {
-            for p in POSITIONS {
+            for p in positions.iter().copied() {
                 for pf in PREFILLS {
                     jobs.push((si, api, p, pf));
                 }
